@@ -139,6 +139,9 @@ def run(ck: Checker) -> None:
     ck.assumptions += ["dataclasses.replace calls __init__ with the current values of the init fields"]
     ck.guard("R-DUP-SANITIZE", lambda: r_dup_sanitize(ck))
     ck.guard("R-REPLACE-FORM", lambda: r_replace_form(ck))
+    # a replacement takes the id a fresh construction would take now: the unique-id helper looks at the registry only
+    from .c03 import r_unique_id_state
+    ck.guard("R-ID-DET", lambda: r_unique_id_state(ck))
     ck.guard("R-REG-PAIR", lambda: r_reg_pair(ck))
     ck.guard("R-REG-IDENT", lambda: r_reg_ident(ck))
     ck.guard("R-PRESENCE", lambda: T.r_presence(ck))
